@@ -6,14 +6,27 @@
 
 namespace hwsim {
 
+// In a C02 run an op-specific oracle of another property (restrict's relational oracle, a distances / memattr model...) may fire before the
+// well-formedness checker has looked at the state the op left behind. Before the run is cut, the checker gets its look: if the state is also
+// malformed, that is C02's own violation and is reported as such (the other property's check reports its side independently).
+static void wf_before_cut(World &w, const char *owner) {
+  if (w.cfg.prop != "C02" || w.cfg.prop == owner || w.cur_ri < 0 || w.in_wf_probe) return;
+  Replica &R = w.r[w.cur_ri]; if (!R.live() || R.adopted) return;
+  w.in_wf_probe = true;
+  Dump d; take_dump(R.t, d, DUMP_FULL); std::string e = wf_check(R.t, d);
+  if (!e.empty()) { w.run->count("probe.wf_checked_before_foreign_cut"); w.run->fail(e.substr(0, e.find(": ")), "%s", e.c_str()); }
+  w.in_wf_probe = false;
+}
 void viol(World &w, const char *owner, const std::string &oid, const char *fmt, ...) {
   char b[4096]; va_list ap; va_start(ap, fmt); vsnprintf(b, sizeof b, fmt, ap); va_end(ap);
   if (w.cfg.prop == owner) w.run->fail(oid, "%s", b);
+  wf_before_cut(w, owner);
   w.run->cut_short(owner, "%s: %s", oid.c_str(), b);
 }
 void viol0(World &w, const char *owner, const std::string &oid, const char *fmt, ...) {
   char b[4096]; va_list ap; va_start(ap, fmt); vsnprintf(b, sizeof b, fmt, ap); va_end(ap);
   if (w.cfg.prop == owner) w.run->fail0(oid, "%s", b);
+  wf_before_cut(w, owner);
   w.run->cut_short(owner, "%s: %s", oid.c_str(), b);
 }
 
@@ -54,6 +67,7 @@ BSet sel_nodeset(const Replica &R, int mode, uint64_t bits) { return sel_set(R, 
 void observe(World &w, int ri, const char *wf_owner, bool force_full) {
   Replica &R = w.r[ri];
   take_dump(R.t, R.last, (w.cfg.lazy && !force_full) ? DUMP_TREE : DUMP_FULL);
+  if (R.last.have_aux) R.aux_stale = false;
   R.last_text = R.last.text();
   if (getenv("HWSIM_DUMP")) fprintf(stderr, "---- r%d after %s #%d\n%s", ri, w.run->curop.c_str(), w.run->curopidx, R.last_text.c_str());
   if (wf_owner && *wf_owner) {
@@ -107,7 +121,7 @@ static void diff_line(const std::string &a, const std::string &b, std::string &l
 
 // one op on one replica, followed by the generic per-op oracles
 static void exec_on(World &w, const Op &o, int ri) {
-  Run &r = *w.run; w.hint.clear();
+  Run &r = *w.run; w.hint.clear(); w.cur_ri = ri;
   Dump B = w.r[ri].last;
   bool handled = ops_core(w, o) || ops_aux(w, o) || ops_diff(w, o);
   if (!handled) { r.ev("unknown op %s", o.kind.c_str()); return; }
@@ -185,8 +199,15 @@ struct TopoMachine : Machine {
     if (cfg.chance(1, 8)) flags |= HWLOC_TOPOLOGY_FLAG_NO_CPUKINDS;
     if (cfg.chance(1, 10)) flags |= HWLOC_TOPOLOGY_FLAG_DONT_CHANGE_BINDING;
     if (cfg.chance(1, 25)) flags |= 1UL << 20;   // illegal flag word: set_flags must refuse and leave the configuration alone
+    // IS_THISSYSTEM on a synthetic/XML source (own sub-stream, 1 run in 6): the only effect in this machine is that the topology installs the native
+    // binding hooks and advertises their support bits (no binding call is ever made here) - non-zero cpubind/membind support bytes for dup, XML
+    // import/export with IMPORT_SUPPORT and shared-memory adoption to carry. allow(LOCAL_RESTRICTIONS) is not issued on such a replica (ops_core.cc).
+    { Rng tsg = root.sub(6); bool ts = tsg.chance(1, 6); if (ts && !snapsrc && (prop == "C02" || prop == "C05" || prop == "C12" || prop == "C19")) flags |= HWLOC_TOPOLOGY_FLAG_IS_THISSYSTEM; }
     char fb[32]; snprintf(fb, sizeof fb, "0x%lx", flags);
-    std::string cfgline = "filters=" + filters + " flags=" + fb + " lazy=" + std::to_string(cfg.chance(1, 3) ? 1 : 0) + " postcfg=" + std::to_string(cfg.chance(1, 4) ? 1 : 0) + " udmarkup=" + std::to_string(cfg.chance(1, 4) ? 1 : 0);
+    // lazy runs (per-op observation is tree-only, so distances / memattr caches invalidated by one op stay invalid until the next op that needs them):
+    // a third of the runs; two thirds for the properties whose accessors are the ones that find those caches invalid (no extra draw: a bit of the seed)
+    bool lazy = cfg.chance(1, 3); if ((prop == "C13" || prop == "C14" || prop == "C15") && ((seed >> 17) & 1)) lazy = true;
+    std::string cfgline = "filters=" + filters + " flags=" + fb + " lazy=" + std::to_string(lazy ? 1 : 0) + " postcfg=" + std::to_string(cfg.chance(1, 4) ? 1 : 0) + " udmarkup=" + std::to_string(cfg.chance(1, 4) ? 1 : 0);
     p.seth("cfg", cfgline);
     // op alphabet with per-property weights; a random third of the kinds is disabled per run (swarm)
     struct W { const char *k; int w; };
@@ -225,6 +246,11 @@ struct TopoMachine : Machine {
     for (auto &x : al) { std::string xk = x.k; if (cfg.chance(1, 3) && xk != "restrict" && xk != "dup" && xk != "xml_restart" && xk != "shm_adopt" && xk != "xml_load_cfg") x.w = 0; }
     int total = 0; for (auto &x : al) total += x.w;
     int len = al.empty() ? 0 : (int)cfg.range(3, prop == "C01" ? 10 : tier == "thorough" ? 40 : 25);
+    // C14 prologue (own sub-stream, two runs in three): 4-9 set_value calls on the hot attribute before the history proper, so that it holds several
+    // targets with several initiators each when the restricts, dups and reloads of the history arrive (measured without it: 1.7 stored values per run,
+    // 16 queries in 5 000 runs met an attribute with two targets right after a restrict)
+    if (prop == "C14") { Rng pg = root.sub(7); if (pg.chance(2, 3)) { int n = (int)pg.range(4, 9); for (int i = 0; i < n; i++) { Op o("mem_set"); o.set("r", 0).set("obs", (int64_t)pg.below(2)).set("attr", (int64_t)pg.below(55)).set("node", (int64_t)pg.below(100)).set("val", (int64_t)pg.below(50)).set("im", (int64_t)pg.below(7) + 1).set("init", (int64_t)pg.below(100)).set("ik", (int64_t)pg.below(3)); p.ops.push_back(o); } } }
+    Rng fq = root.sub(8);
     for (int s = 0; s < len && total; s++) {
       int rr = (int)ops.below(total); const char *k = nullptr; for (auto &x : al) { if (rr < x.w) { k = x.k; break; } rr -= x.w; }
       Op o(k); o.set("r", (int64_t)ops.below(4));
@@ -268,6 +294,17 @@ struct TopoMachine : Machine {
       else if (ks == "set_subtype") o.set("o", (int64_t)ops.below(1000)).set("v", (int64_t)ops.below(100000)).set("io", (int64_t)ops.below(2));
       else if (ks == "set_userdata") o.set("o", (int64_t)ops.below(1000)).set("tok", (int64_t)ops.below(100000));
       p.ops.push_back(o);
+      // the property's own query right behind an invalidating op (restrict, dup, XML restart), on the same replica selector, in half of the cases: the accessor
+      // that runs first after the invalidation is the one that meets the stale cache (own sub-stream: the other draws are unchanged)
+      if ((prop == "C13" || prop == "C14" || prop == "C15") && (ks == "restrict" || ks == "dup" || ks == "xml_restart")) {
+        if (fq.chance(1, 2)) {
+          Op q(prop == "C13" ? "dist_get" : prop == "C14" ? "mem_query" : "kind_query"); q.set("r", o.u("r")).set("obs", 0);
+          if (prop == "C13") q.set("how", (int64_t)fq.below(4)).set("kf", (int64_t)fq.below(30)).set("ty", (int64_t)fq.below(3)).set("name", (int64_t)fq.below(2)).set("cap", (int64_t)fq.below(1000));
+          if (prop == "C14") q.set("attr", (int64_t)fq.below(70)).set("sub", (int64_t)fq.below(2)).set("cap", (int64_t)fq.below(100)).set("pu", (int64_t)fq.below(1000)).set("tg", (int64_t)fq.below(100));
+          if (prop == "C15") q.set("a", (int64_t)fq.below(100));
+          p.ops.push_back(q);
+        }
+      }
     }
     // snapshot sources (ops_snapshot.cc). Generated apart from the alphabet above so that the plans of the other properties keep their draws.
     size_t nsnap = snapshot_count();
@@ -322,22 +359,39 @@ struct TopoMachine : Machine {
     r.count("loads_ok");
     int idx = 0;
     for (const Op &o : p.ops) {
-      r.curop = o.kind; r.curopidx = idx++; r.nops++; steps_reset();
+      r.curop = o.kind; r.curopidx = idx++; r.nops++; steps_reset(); w.cur_ri = -1;
       bool repl_op = o.kind == "dup" || o.kind == "xml_restart" || o.kind == "destroy" || o.kind == "shm_adopt" || o.kind == "xml_load_cfg";
       if (o.kind == "battery") { int bi = w.pick(o.u("r")); if (bi >= 0) { Replica &BR = w.r[bi]; if (!BR.last.ok) observe(w, bi, ""); battery(w, bi, o.u("qs"), (int)(o.u("nq") % 40) + 5); r.ev("battery r%d", bi); } continue; }
       if (o.kind == "xml_fault" || o.kind == "diffxml_fault") { ops_xmlfault(w, o); continue; }
       if (o.kind == "snap_load" || o.kind == "snap_enum") { ops_snapshot(w, o); continue; }
       if (repl_op) { if (!ops_repl(w, o) && !ops_shm(w, o)) r.ev("unknown op %s", o.kind.c_str()); continue; }
       int ri = w.pick(o.u("r")); if (ri < 0) break;
-      exec_on(w, o, ri);
+      // twin trial: when an oracle of ANOTHER property (typically C02's well-formedness after a modifying call) fails on a replica whose dup / XML twin is
+      // still supposed to be equivalent, the same op is tried on the twin. Same failure there: the defect is the op's, the run is cut as usual.
+      // The twin passes: the two replicas were not equivalent (hidden state lost by dup / reload, e.g. the gp_index counter) - that is this run's property.
+      int tj0 = w.r[ri].twin; bool twin_ok = tj0 >= 0 && w.r[tj0].live() && w.r[tj0].twin == ri && !w.r[ri].adopted && !w.r[tj0].adopted && w.r[ri].twin_kind != 3;
+      std::string town = twin_ok ? (w.r[ri].twin_kind == 1 ? "C12" : "C05") : "";
+      auto op_for = [&](int tj) { Op o2 = o; int kth = 0; for (int i = 0; i < tj; i++) kth += w.r[i].live(); for (auto &kv : o2.kv) if (kv.first == "r") kv.second = std::to_string(kth); return o2; };
+      try { exec_on(w, o, ri); }
+      catch (RunAbort &) {
+        if (!(twin_ok && r.cut && !r.violated && w.cfg.prop == town)) throw;
+        std::string cb = r.cutby, vd = r.vdetail; r.cut = false; r.count("probe.twin_trial");
+        try { exec_on(w, op_for(tj0), tj0); } catch (RunAbort &) { if (!r.violated) { r.cut = true; r.cutby = cb; r.vdetail = vd; } throw; }
+        viol(w, town.c_str(), "replica.twin_op_outcome_differs", "%s on r%d broke an oracle of %s (%s) but the same op on its twin r%d, supposed to be equivalent, did not", o.kind.c_str(), ri, cb.c_str(), vd.substr(0, 300).c_str(), tj0);
+      }
       if (!w.r[ri].live()) continue;
       int tj = w.r[ri].twin;
       if (tj >= 0 && w.r[tj].live() && w.r[tj].twin == ri) {
         Replica &A = w.r[ri], &T = w.r[tj]; int kind = A.twin_kind; const char *own = kind == 1 ? "C12" : kind == 2 ? "C05" : "C19";
         if (o.u("both") && kind != 3 && !A.adopted && !T.adopted) {   // an adopted replica refuses what its (writable) twin accepts
           // lock-step: the same op on the twin must keep the two replicas equivalent (catches lost hidden state such as next_gp_index or dont_merge)
-          Op o2 = o; int kth = 0; for (int i = 0; i < tj; i++) kth += w.r[i].live(); for (auto &kv : o2.kv) if (kv.first == "r") kv.second = std::to_string(kth);
-          exec_on(w, o2, tj);
+          Op o2 = op_for(tj);
+          try { exec_on(w, o2, tj); }
+          catch (RunAbort &) {   // the op passed every oracle on one twin and breaks a foreign one on the other: the twins were not equivalent
+            if (!(r.cut && !r.violated && w.cfg.prop == own)) throw;
+            std::string cb = r.cutby, vd = r.vdetail; r.cut = false;
+            viol(w, own, "replica.twin_op_outcome_differs", "%s passed on r%d but broke an oracle of %s (%s) on its twin r%d, supposed to be equivalent", o.kind.c_str(), ri, cb.c_str(), vd.substr(0, 300).c_str(), tj);
+          }
           r.count("probe.lockstep_ops");
           std::string ta = A.last.text_norm(kind != 1), tb = T.last.text_norm(kind != 1);
           bool eq = ta == tb;
